@@ -112,7 +112,9 @@ func VerifC02_run() {
 	vSleepBudget(3)
 	vExpect("HORIZON", "ok")
 	vExpect("TICK-HORIZON", "ok")
-	d.main()
+	vTermWatch(d.output, d.err)
+	vRunSpawned(0) // the goroutine New started: main
+	vRunLeftoverSpawned()
 	vReach("terminated")
 	for vLogLen(d.output) > 0 {
 		outLog = append(outLog, vLogTake(d.output).(types.Prioritized[int]))
